@@ -15,6 +15,7 @@ import (
 	"strings"
 	"sync"
 	"time"
+	"unicode"
 
 	"github.com/emersion/go-sasl"
 )
@@ -650,8 +651,10 @@ func encodeUTF8AddrUnitext(raw string) string {
 		case ch >= '!' && ch <= '~' && ch != '+' && ch != '=' && ch != '\\':
 			// printable non-space US-ASCII except '+', '=' and '\'
 			out.WriteRune(ch)
-		case ch <= '\x7F':
-			// other ASCII: CTLs, space and specials
+		case ch <= '\x7F' || unicode.IsSpace(ch):
+			// other ASCII: CTLs, space and specials; non-ASCII white
+			// space (NBSP, U+2028, ...), which the receiving side's
+			// strings.Fields/TrimSpace would take for a separator
 			// EmbeddedUnicodeChar = %x5C.78 "{" HEXPOINT "}", at least
 			// two hex digits
 			fmt.Fprintf(&out, "\\x{%02X}", ch)
